@@ -27,6 +27,17 @@ elif n == "5":
              "(d) A MIX-UP BETWEEN TWO VALUES OF THE SAME TYPE at a call site or in a struct literal - start / dest, rank / file, alpha / beta, the mover's colour vs the "
              "opponent's, white / black fields, two Option<Millisecond> limits - where every existing test happens to pass because the two values coincide or are symmetric "
              "there. For each of the two: ")
+elif n == "6":
+    twist = ("This is a sixth round: edits to existing logic of every kind have been tried. Produce TWO independent changes (deliver them as out/1/ and out/2/, each with its "
+             "own patch.diff, demo and README.md, each verified on its own from a clean checkout). This time each change must be ADDITIVE - a well-meant new feature or "
+             "optimisation that mostly ADDS code and leaves the existing lines nearly untouched, the kind of pull request titled 'speed up X' or 'support Y': a fast path or "
+             "early exit in front of existing logic, a small cache or memo (a field, a static, a thread_local, a HashMap) that is not invalidated or keyed quite right, a new "
+             "pruning / reduction / extension / move-ordering heuristic in the search (null-move, late-move reduction, futility, aspiration window, killer or history "
+             "table, check extension, mate-distance pruning, delta pruning in quiescence), incremental bookkeeping added beside a from-scratch computation, a new field on "
+             "a struct that some constructor, Clone, reset or undo path does not maintain, a new UCI command / option / `go` parameter whose handling interferes with an "
+             "existing one, an extra thread or channel, a time-management refinement, a lazily initialised table, a pre-check that rejects or normalises input before the "
+             "existing parser sees it, or a new evaluation term. The addition must look plausible and useful on its own, be correct for ordinary inputs, and break the "
+             "property only in a corner its author did not think about. The two changes must use different kinds of addition. For each of the two: ")
 elif n == "4":
     twist = ("This is a fourth round: direct changes to the functions that visibly implement this behaviour, and changes disguised as refactorings of them, have been tried. "
              "Produce TWO independent changes (deliver them as out/1/ and out/2/, each with its own patch.diff, demo and README.md, each verified on its own from a clean "
